@@ -1,4 +1,5 @@
 import HgVerif.Model.DynLifecycle
+import HgVerif.Model.DynLifeReduceZ
 import HgVerif.Model.Slots
 import HgVerif.Model.Reduce
 import HgVerif.Driver.Proto
@@ -10,8 +11,9 @@ node's entries, reconciliation, parent stop, release) is the definition the theo
 and its slot store (the C05 model `Slots.TSD`: which slot a key gets, when a removed slot is erased),
 which children an input tick makes due, and the fault plan of the probe nodes as `Hooks`.
 
-`lake env lean --run Drivers/C14Dyn.lean [current]` : `current` selects the `remove_all_entries`
-loop without the first-exception recorder (the tree before fixes/c14_map_stop.patch). -/
+`lake env lean --run Drivers/C14Dyn.lean [current] [rz]` : `current` selects the `remove_all_entries`
+loop without the first-exception recorder (the tree before fixes/c14_map_stop.patch); `rz` runs the zero-less `reduce`
+kind through the pointer-table model of `Model/DynLifeReduceZ.lean` as well (kind `reducez` always uses it). -/
 open HgVerif.DynLife HgVerif.Driver
 
 structure Plan where
@@ -109,6 +111,7 @@ deriving Repr
 structure DS where
   isSwitch : Bool := false
   isReduce : Bool := false
+  hasZero : Bool := false           -- reducez: reduce_ with an explicit scalar zero (a const: it ticks in the first cycle)
   fwd : Bool := false               -- switchb / switchl: the switch output forwards to the branch terminal
   n : Nat := 1
   cleanup : Bool := true
@@ -237,6 +240,51 @@ def redInputs (cycles : List (List Op)) : List RedIn :=
         (y, present', x2.2, idx + 1, t2, out ++ [I])
   (cycles.foldl step (({} : TSD), ([] : List Int), (0 : Int), 0, ({} : Tree Int), ([] : List RedIn))).2.2.2.2.2
 
+open HgVerif.Slots HgVerif.Reduce in
+/-- the key history as the reduce node of `Model/DynLifeReduceZ.lean` sees it: the leaf bookkeeping of `reduce_reconcile`
+    (C11 model) gives the live count, the structural and the modified leaves; the tree itself (capacity, banks, pointer
+    table, created / set-aside / retired combiners) is the model's business.  With a zero (a `const` node) the node is also
+    evaluated in the first engine cycle, where the zero ticks, whatever the collection does. -/
+def rzInputs (hasZero : Bool) (cycles : List (List Op)) : List RzIn :=
+  let step := fun (acc : TSD × List Int × Int × Nat × Tree Int × List RzIn) (ops : List Op) =>
+    let (x, present, v, idx, tr, out) := acc
+    let t := idx + 1
+    let r := ops.foldl (fun (a : List Int × List Int × List Int) o =>
+      match o with
+      | .add k => (a.1, if a.2.1.contains k then a.2.1 else a.2.1 ++ [k], if a.2.2.contains k then a.2.2 else a.2.2 ++ [k])
+      | .del k => if a.2.2.contains k then (a.1 ++ [k], a.2.1, a.2.2.filter (· != k)) else a
+      | _ => a) (([] : List Int), ([] : List Int), present)
+    let removedKeys := r.1
+    let plusKeys := sortInts r.2.1
+    let present' := r.2.2
+    let zeroEvent := hasZero && idx == 0
+    if removedKeys.isEmpty && plusKeys.isEmpty then
+      if zeroEvent then
+        -- the collection input is not valid yet: no leaf reconciliation; `!published` forces the (full) rebuild
+        (x, present', v, idx + 1, { tr with published := true },
+         out ++ [{ active := true, structural := false, live := tr.keys.length, full := true, zeroEvent := true }])
+      else (x, present', v, idx + 1, tr, out ++ [{ active := false }])
+    else
+      let x1 := removedKeys.foldl (fun y k => (y.erase t k).1) x
+      let removedSlots := removedKeys.filterMap fun k => (findLive x.keys.slots k).map fun s => (s, k)
+      let x2 := plusKeys.foldl (fun (yv : TSD × Int) k => (yv.1.set t k (yv.2 + 1), yv.2 + 1)) (x1, v)
+      let y := x2.1
+      let slotOf := fun k => (findLive y.keys.slots k).map fun s => (s, k)
+      let removedOrd := (sortSlots removedSlots).map (·.2)
+      let modifiedOrd := (sortSlots (plusKeys.filterMap slotOf)).map (·.2)
+      let liveOrd := (List.range y.keys.cap).filterMap fun i =>
+        let s := sget y.keys.slots i
+        if s.st == .live then some s.key else none
+      let full := !tr.primed
+      let rl := reconcileLeaves { tr with structLeaves := [] } full removedOrd (if full then liveOrd else modifiedOrd)
+      let t1 : Tree Int := { rl.1 with primed := true, published := true }
+      let I : RzIn :=
+        { active := true, structural := rl.2, live := t1.keys.length, full := !tr.published || !tr.primed
+          structLeaves := t1.structLeaves, modLeaves := modifiedOrd.filterMap fun k => leafOf t1.keys k
+          zeroEvent := zeroEvent }
+      (y, present', x2.2, idx + 1, t1, out ++ [I])
+  (cycles.foldl step (({} : TSD), ([] : List Int), (0 : Int), 0, ({} : Tree Int), ([] : List RzIn))).2.2.2.2.2
+
 def swInputs (cycles : List (List Op)) : List SwIn :=
   cycles.map fun ops =>
     let key := ops.foldl (fun (a : Option Int) o => match o with | .sel k => some k | _ => a) none
@@ -244,7 +292,7 @@ def swInputs (cycles : List (List Op)) : List SwIn :=
     { active := any, key := key, ticked := any }
 
 /-- the answer lines of one history: one per cycle, then the `run` line -/
-def runHistory (d : DS) (recorder : Bool) : List String :=
+def runHistory (d : DS) (recorder : Bool) (rzAll : Bool := false) : List String :=
   let nc := d.cycles.length
   if d.cfgBad then List.replicate (nc + 1) "err:harness" else
   let cfg : Cfg := { n := d.n, cleanup := d.cleanup, recorder := recorder, fwd := d.fwd }
@@ -253,6 +301,10 @@ def runHistory (d : DS) (recorder : Bool) : List String :=
     if d.isSwitch then
       let r := swRun cfg h (swInputs d.cycles) {}
       (r.ret.w.tr, r.fin.w.tr, r.err, (swRunCycles cfg h (swInputs d.cycles) 0 { w := { u := {} } }).2.isSome)
+    else if d.isReduce && (d.hasZero || rzAll) then
+      let c : RzCfg := { base := cfg, hasZero := d.hasZero }
+      let r := rzRun c h (rzInputs d.hasZero d.cycles) {}
+      (r.ret.m.w.tr, r.fin.w.tr, r.err, (rzRunCycles c h (rzInputs d.hasZero d.cycles) 0 { m := { w := { u := {} } } }).2.isSome)
     else if d.isReduce then
       let r := redRun cfg h (redInputs d.cycles) {}
       (r.ret.w.tr, r.fin.w.tr, r.err, (redRunCycles cfg h (redInputs d.cycles) 0 { m := { w := { u := {} } } }).2.isSome)
@@ -283,13 +335,13 @@ def parseOps (isSwitch : Bool) : List String → Option (List Op)
     let r ← parseOps isSwitch rest
     pure (o :: r)
 
-def flush (d : DS) (recorder withRun : Bool) : DS × List String :=
+def flush (d : DS) (recorder : Nat) (withRun : Bool) : DS × List String :=
   if d.cycles.isEmpty && !withRun then (d, [])
   else
-    let lines := runHistory d recorder
+    let lines := runHistory d (recorder % 2 == 1) (recorder / 2 == 1)
     ({ d with cycles := [] }, if withRun then lines else lines.take d.cycles.length)
 
-def step (recorder : Bool) (d : DS) (ws : List String) : DS × List String :=
+def step (recorder : Nat) (d : DS) (ws : List String) : DS × List String :=
   match ws with
   | ["case", n] =>
     let (_, out) := flush d recorder false
@@ -297,8 +349,8 @@ def step (recorder : Bool) (d : DS) (ws : List String) : DS × List String :=
   | ["cfg", kind, n, c] =>
     let (d1, out) := flush d recorder false
     let sw := kind == "switch" || kind == "switchb" || kind == "switchl"
-    let ok := (kind == "map" || sw || kind == "reduce") && (n == "1" || n == "2" || n == "3") && (c == "0" || c == "1")
-    if ok then ({ d1 with isSwitch := sw, fwd := sw && kind != "switch", isReduce := kind == "reduce", n := n.toNat!, cleanup := c == "1", cfgBad := false }, out ++ ["ok"])
+    let ok := (kind == "map" || sw || kind == "reduce" || kind == "reducez") && (n == "1" || n == "2" || n == "3") && (c == "0" || c == "1")
+    if ok then ({ d1 with isSwitch := sw, fwd := sw && kind != "switch", isReduce := kind == "reduce" || kind == "reducez", hasZero := kind == "reducez", n := n.toNat!, cleanup := c == "1", cfgBad := false }, out ++ ["ok"])
     else ({ d1 with cfgBad := true }, out ++ ["bad-op"])
   | ["fs", k] =>
     let (d1, out) := flush d recorder false
@@ -339,7 +391,7 @@ def step (recorder : Bool) (d : DS) (ws : List String) : DS × List String :=
     let (d1, out) := flush d recorder false
     (d1, out ++ ["bad-op"])
 
-partial def loop (h out : IO.FS.Stream) (recorder : Bool) (d : DS) : IO Unit := do
+partial def loop (h out : IO.FS.Stream) (recorder : Nat) (d : DS) : IO Unit := do
   let line ← h.getLine
   if line.isEmpty then
     let (_, o) := flush d recorder false
@@ -351,5 +403,6 @@ partial def loop (h out : IO.FS.Stream) (recorder : Bool) (d : DS) : IO Unit := 
   loop h out recorder d'
 
 def main (args : List String) : IO Unit := do
-  let recorder := !(args.contains "current")
+  -- bit 0: the repaired `remove_all_entries` loop, bit 1: `reduce` through the pointer-table model too
+  let recorder : Nat := (if args.contains "current" then 0 else 1) + (if args.contains "rz" then 2 else 0)
   loop (← IO.getStdin) (← IO.getStdout) recorder {}
